@@ -254,7 +254,35 @@ class FnVerifier:
             cm = h(R, cmv, node, frame)
             if cm is not None:
                 return cm
+        if cmv.t.kind == "opaque" and cmv.t.name in ("file", "lock"):
+            ctxv = self
+
+            class _CM(models.CtxMgr):
+                def enter(self, R2):
+                    return cmv
+
+                def exit(self, R2, exc):
+                    if cmv.t.name == "file":
+                        ctxv.emit(R2, "close", [cmv], node)
+                    return False
+
+            return _CM()
         raise Unsupported("with-statement over %r" % (cmv,))
+
+    def emit(self, R, evname, args, node):
+        """append an event to the effect trace (and its log)"""
+        R.trace.append(Event(evname, args, {}))
+        if args and not args[0].is_const and not args[0].t.heap:
+            lt = args[0].t
+            st = T.Seq(lt)
+            cur = R.ghost.get(("log", evname))
+            if cur is None:
+                cur = V(st, z3.Empty(st.sort()))
+            if cur.t == st:
+                R.ghost[("log", evname)] = V(st, z3.Concat(cur.z, z3.Unit(args[0].z)))
+        h = self.c.hooks.get("event")
+        if h:
+            h(R, R.trace[-1], node)
 
     def on_yield(self, R, frame, val, ynode):
         h = self.c.hooks.get("yield")
@@ -518,7 +546,7 @@ class FnVerifier:
         if ext.event:
             R.trace.append(Event(ext.event, args, kwargs))
             li = ext.log if ext.log is not None else 0
-            if li < len(args) and not args[li].is_const and not args[li].t.heap:
+            if li < len(args) and not args[li].is_const and not args[li].t.heap and args[li].t == self.log_type(ext.event):
                 lt = self.log_type(ext.event)
                 st = T.Seq(lt)
                 cur = R.ghost.get(("log", ext.event))
@@ -547,7 +575,10 @@ class FnVerifier:
         elif ext.pure:
             if rt.heap:
                 raise EngineError("pure external with heap result")
-            res = self.uf_apply(R, name, [a for a in args if not a.is_const] + [v for v in kwargs.values() if not v.is_const], rt)
+            uargs = [a for a in args if not a.is_const] + [v for v in kwargs.values() if not v.is_const]
+            if recv is not None and not recv.is_const and not recv.t.heap:
+                uargs = [recv] + uargs
+            res = self.uf_apply(R, name, uargs, rt)
         elif rt.heap:
             res = self.alloc_symbolic(R, rt, fresh_name(name.split(".")[-1]))
         else:
@@ -702,7 +733,10 @@ class FnVerifier:
                 R.ex_block(self.fn.body, frame)
                 outcome = ("return", mk_none())
             except ReturnEx as r:
-                outcome = ("return", r.value)
+                rv = r.value
+                if rv.t.kind == "list" and R.cell(rv).ty.elem is PENDING and c.returns is not None and c.returns.kind == "list":
+                    rv = R.new_list(c.returns.elem, [])
+                outcome = ("return", rv)
             except PyRaise as pr:
                 outcome = ("raise", pr.exc)
             except (BreakEx, ContinueEx):
